@@ -26,6 +26,14 @@ CHECKS = {
          "independent oracle is the spec evaluator semEval (proved sound for Sem) against the real result."),
    note=GENERAL_NOTE + " The completeness direction (Sem derives an outcome => the run terminates) is so far only explored (every corpus case on which semEval terminates is compared), not proved.",
    technique="Lean 4 refinement proof (model => PEG big-step semantics) + determinism; differential correspondence; spec-evaluator oracle"),
+ 'C03': dict(engine='matcher-model', design_ref='DESIGN.md §6 C03',
+   text=("Proof (Lean 4), partial by nature of the property: in the model every read goes through peek_char(off) and every advance through bump*, both flagging any access outside the current window "
+         "[cur, endp) (end of data, end of a rematch sub-input, or the end lowered by limit_bytes); no invocation ever sets the flag or moves the cursor past endp — for every grammar table, input, action "
+         "attachment and mode (C03_no_oob, C03_in_bounds, C03_parse), per atom from its real size guard (C03_atoms). Runtime memory safety of the compiled binary cannot be proved from a model: it is "
+         "observed on every run — the engine corpus and every shipped grammar (json, uri, iri, http, abnf, integer, raw_string, utf8/16/32, uintN, json_pointer, lua53, proto3) on all truncations and seeded "
+         "mutations of valid documents, in exact-size heap buffers without terminator under ASan+UBSan, with a guarded hook in memory_input that also sees logical ends inside a larger buffer."),
+   note=GENERAL_NOTE + " Partial: the theorem is about the model's window discipline; the binary's memory safety is exploration (ASan/UBSan/hook). memcmp-style reads (string, istring, read_uint) are modelled as guarded by their size check and are visible to ASan only at the true end of the allocation. buffer_input is covered by C07.",
+   technique="Lean 4 invariant proof (window discipline of the model) + ASan/UBSan/hook exploration of the real parser on the corpus and on shipped grammars"),
  'C09': dict(engine='matcher-model', design_ref='DESIGN.md §6 C09',
    text=("Proof (Lean 4): every hand-optimised match() body (until, rep, rep_min_max, rep_opt, if_then_else, strict, star_strict, plus, partial, star_partial, rematch, must, if_must/opt_must, "
          "try_catch_*, enable/disable) refines, in the PEG formalism with labelled failures, the documented expansion of its rule (Spec.expandKind): same accepted inputs, same consumed prefix, "
@@ -40,6 +48,11 @@ CHECKS = {
          "success consumes exactly the unit length, failure consumes nothing."),
    note=GENERAL_NOTE + " Tie: exhaustive over every byte per class, all 1-2 byte and (quick: lead E0..EF / thorough: all) 3-byte UTF-8 inputs, boundary 4-byte inputs, all truncations, every 16-bit unit, all uint16 values; UTF-32/uint32/uint64 boundary-structured. Only the little-endian-host branch of endian_gcc.hpp and signed char are modelled (static asserts in the harness).",
    technique="Lean 4 proof about executable models of the peek/test functions and a translated class table; exhaustive differential correspondence; Python codec oracle"),
+ 'C15': dict(engine='leaf-integer', design_ref='DESIGN.md §6 C15',
+   text=("Proof (Lean 4): for every width w >= 1, every Maximum <= 2^w-1 and every input window, the model's integer rules accept exactly [-+]?(0|[1-9][0-9]*) with maximal munch (equal to the PEG meaning of "
+         "unsigned_rule_new / signed_rule_new), store exactly the mathematical value or report overflow, never compute outside the type, never read outside the window, and consume nothing on local failure."),
+   note=GENERAL_NOTE + " Tie: exhaustive for 8-bit targets (<= 4 digits x tails x signs x 21 maxima) and 16-bit (<= 6 digits, default maximum), boundary neighbourhoods for 32/64-bit; relies on g++'s modular conversion to signed types. The value left in the state after a thrown overflow is unspecified and not compared.",
+   technique="Lean 4 proof about an executable model of contrib/integer.hpp + differential correspondence under ASan/UBSan + Python big-integer oracle"),
  'C16': dict(engine='leaf-rawstring', design_ref='DESIGN.md §6 C16',
    text=("Proof (Lean 4): for the model of contrib/raw_string.hpp, raw_string matches iff a Lua long literal of some level starts at the cursor; it consumes through the first same-level closer; "
          "the content action gets the text between the brackets minus one leading eol; other-level brackets are ignored; a failure under required restores the cursor — for all inputs, offsets, "
@@ -52,6 +65,13 @@ CHECKS = {
          "unhex_char/unhex_string/unescape_c/u/x exact. Correspondence exhaustive for utf8_append_utf32 on 0..0x110000, all 1-3 escape sequences over 20 boundary units, the 256-byte tables."),
    note=GENERAL_NOTE + " Theorems are about Model/Unescape.lean; the grammar matching that establishes the actions' preconditions is not modelled here. A VERIF_REPO scratch tree needs src/example/pegtl as well as include/.",
    technique="Lean 4 proof about a hand-written executable model + exhaustive differential correspondence + Python-codec oracle"),
+ 'C18': dict(engine='matcher-model', design_ref='DESIGN.md §6 C18',
+   text=("Proof (Lean 4): after any invocation — success, local failure, exception — the depth counter and the end of the input are what they were (C18_frame, C18_parse_frame, from the invariant closed "
+         "over all rule bodies and the limit wrappers); limit_depth<N> admits the rule's match() exactly when the new depth is <= N and otherwise raises blaming limit_depth (C18_depth_exact/bound); "
+         "limit_bytes<N> runs the rule in the window [cur, cur+min(avail,N)) wherever cur is, so it neither consumes nor inspects beyond (C18_bytes_bound with C03), and raises exactly when the rule "
+         "matched, stopped at the lowered end and the real input continues (C18_bytes_raise)."),
+   note=GENERAL_NOTE + " 'Inputs needing at most depth N parse as without the guard' is checked by a twin run (same grammar, guard removed via a second action family) on every explored input, not proved as a simulation theorem. Depth counts attempts (a rule attempted at depth N+1 raises even if it would fail).",
+   technique="Lean 4 invariant proof + exact characterisation of the two guards; differential correspondence; trace oracles incl. twin run"),
  'C19': dict(engine='leaf-lines', design_ref='DESIGN.md §6 C19',
    text=("Proof (Lean 4): for all inputs, every offset k <= size, the five eol policies, eager and lazy tracking and any initial line: at() = k with initial byte 0; "
          "begin_of_line/end_of_line/line_at delimit exactly the specified line with 0 <= bol <= at <= eol <= size and no read outside the data, given initial byte 0 and "
@@ -62,11 +82,11 @@ CHECKS = {
 }
 
 PENDING = {
- 'C03': "check under construction (out-of-window invariant and ASan/hook run not yet registered)",
+
  'C04': "check under construction", 'C05': "check under construction", 'C06': "check under construction",
  'C07': "check under construction", 'C08': "check under construction", 'C11': "check under construction", 'C12': "check under construction",
- 'C13': "check under construction", 'C14': "check under construction", 'C15': "check under construction (leaf model being built)",
- 'C18': "check under construction", 'C20': "check under construction",
+ 'C13': "check under construction", 'C14': "check under construction",
+ 'C20': "check under construction",
 }
 
 def main():
